@@ -46,6 +46,17 @@ def _mutator_state(ctx, fam, collection=None, extra=None):
     return ci, st, Ref(addr), addr
 
 
+def _call_args(fi, first, **named):
+    """(args, kwargs) passing `first` as the first parameter after self (whatever it is called) and the rest by name
+    when the function has a parameter of that name (interpretation must not depend on private parameter names)."""
+    names = [a.arg for a in fi.node.args.args][1:] + [a.arg for a in fi.node.args.kwonlyargs]
+    kw = {k: v for k, v in named.items() if k in names}
+    missing = [k for k in named if k not in names]
+    if missing:
+        raise AnalysisError(f"{fi.qualname}: no parameter named {missing}")
+    return [first], kw
+
+
 # ------------------------------------------------------------------ TRUTH
 def truth_worker(task):
     hid, shape, fam = task
@@ -116,14 +127,15 @@ def byindex_worker(mode):
     ctx = get_ctx()
     ci, st, selfref, addr = _mutator_state(ctx, "sequence")
     c, m = ctx.p.lookup_method(ci, "_extractor")
-    kw = {"value_or_index": Sym(("voi",), {ARG}, tags={"nonsentinel"}), "raise_if_missing": Const(True)}
+    named = {"raise_if_missing": Const(True)}
     if mode != "default":
-        kw["by_index"] = Const(mode == "true")
+        named["by_index"] = Const(mode == "true")
+    pos, kw = _call_args(m[0], Sym(("voi",), {ARG}, tags={"nonsentinel"}), **named)
 
     def conf(cfg):
         cfg.emit_reads = True
         cfg.emit_chk = True
-    it, outs = run_function(ctx.p, ctx.H, m[0], [selfref], kw, configure=conf, state=st)
+    it, outs = run_function(ctx.p, ctx.H, m[0], [selfref] + pos, kw, configure=conf, state=st)
     reads, chks = set(), set()
     for o in outs:
         for e in o.state.trace:
@@ -183,8 +195,8 @@ def err_worker(fam):
     for rim in (True, False):
         ci, st, selfref, addr = _mutator_state(ctx, fam)
         c, m = ctx.p.lookup_method(ci, "_extractor")
-        kw = {"value_or_index": Sym(("voi",), {ARG}, tags={"nonsentinel"}), "raise_if_missing": Const(rim)}
-        it, outs = run_function(ctx.p, ctx.H, m[0], [selfref], kw, state=st)
+        pos, kw = _call_args(m[0], Sym(("voi",), {ARG}, tags={"nonsentinel"}), raise_if_missing=Const(rim))
+        it, outs = run_function(ctx.p, ctx.H, m[0], [selfref] + pos, kw, state=st)
         res[rim] = sorted({o.value.cls for o in outs if o.kind == "exc" and any(e[0] == "R" for e in o.state.trace)})
         res[f"ok{rim}"] = sum(1 for o in outs if o.kind == "ok")
     return {"fam": fam, "res": res}
